@@ -10,7 +10,8 @@
   * annotation layer: tokenizer / option parsers against the project's own writer, continuation
     over several lines (C10_ann_roundtrip_partial, C10_ann_continuation);
   * layout: the three line-ending conventions give the same lines and the same parse
-    (C10_line_endings), any white space in front of the asterisk is stripped (C10_asterisk_strip);
+    (C10_line_endings), any white space in front of the asterisk is stripped (C10_asterisk_strip),
+    parameter and tag lines are recognised under any indentation behind it (C10_indent_lines);
   * block layer, for the grammar fragment of Spec/BlockGrammar.lean (symbol identifier with
     annotations, parameters with annotations and one-line descriptions, one description paragraph,
     `Returns:`): every layout parses to exactly the block with no diagnostic (C10_parse_render_partial),
@@ -184,6 +185,14 @@ theorem C10_asterisk_strip (indent : Str) (sp : Char) (text : Str) (hind : ∀ x
   have hd2 : (indent ++ ['*']).drop (indent.length + 1) = [] := List.drop_eq_nil_of_le (by simp)
   simp [groupText, hd, hd2]
 
+/-- Indentation behind the asterisk: a parameter line and a tag line are recognised whatever white space
+    stands in front of them, with every group moved by that many columns; an empty line stays empty. -/
+theorem C10_indent_lines (ws line : Str) (h : ∀ c ∈ ws, isSpace c = true) :
+    matchParameter (ws ++ line) = (matchParameter line).map (shiftGroups ws.length) ∧
+    matchTag (ws ++ line) = (matchTag line).map (shiftGroups ws.length) ∧
+    matchEmpty (ws ++ line) = matchEmpty line :=
+  ⟨matchParameter_indent ws line h, matchTag_indent ws line h, matchEmpty_indent ws line h⟩
+
 /-! ### block level, for the grammar fragment of Spec/BlockGrammar.lean -/
 
 /-- parse ∘ render: every layout (white space before the tokens and asterisks, the white-space
@@ -323,5 +332,8 @@ example : (parsedBlock (render exampleLayout (blockImage exampleBlock 7 [])) 7).
     some (eraseIndent (blockImage exampleBlock 7 [])) := by decide +kernel
 
 example : NoBreak (str "a line") := by intro c hc; revert c; decide
+
+example : matchParameter (str "\t  @p: (in): x") =
+    some [("parameter_name", 4, 5), ("fields", 7, 14)] ∧ (∀ c ∈ str "\t  ", isSpace c = true) := by decide +kernel
 
 end GIVerif.AnnParse
